@@ -19,6 +19,17 @@ Proof. exact ini_roundtrip. Qed.
 Theorem C20_is_bool_spec : forall s, is_str_bool s = bool_form s.
 Proof. exact is_bool_spec. Qed.
 
+(* 1 exactly for -?[0-9]+ (integer), 2 exactly for -?[0-9]+.[0-9]+ (floating point), 0 otherwise *)
+Theorem C20_is_number_spec : forall s, is_str_number s = if int_form s then 1 else if float_form s then 2 else 0.
+Proof. exact is_number_spec. Qed.
+
+(* Apache-style tokenizer: the words of a line written with any mix of bare / single-quoted / double-quoted style, with the
+   quotation mark and backslash escaped (or every character escaped), separated by blanks (optional after a quoted word),
+   are split and unquoted/unescaped exactly *)
+Theorem C20_aconf_tokenize_render : forall ws, ws <> [] -> words_ok false ws = true ->
+  aconf_tokenize (render_words ws) = TokOk (map w_text ws).
+Proof. exact aconf_tokenize_render. Qed.
+
 (* non-vacuity: a document with a comment, a section, a re-definition, references to both and to the environment is well-formed *)
 Definition ex_env (n : list N) : option (list N) := if list_eqb n [72] then Some [47; 104] else None.
 Definition ex_lay : lay := {| l_pre := [32]; l_mid1 := [9]; l_mid2 := [32; 32]; l_post := [13] |}.
@@ -31,5 +42,15 @@ Example C20_ex_ini : ini_wf ex_env QCONF_MAX_SUBSTITUTIONS 61 ex_doc = true /\
                             ([99], [49; 50; 32; 45; 32; 47; 104; 115])].
 Proof. vm_compute. auto. Qed.
 
+Definition ex_words : list aword :=
+  [{| w_gap := []; w_style := Bare; w_text := [84; 88; 84] |};
+   {| w_gap := [32; 9]; w_style := Quoted 34 false; w_text := [85; 83; 32; 34; 83; 39; 115; 34; 92] |};
+   {| w_gap := []; w_style := Quoted 39 true; w_text := [39; 32; 34] |};
+   {| w_gap := [32]; w_style := Bare; w_text := [97; 92; 34; 98] |}].
+Example C20_ex_words : words_ok false ex_words = true /\ aconf_tokenize (render_words ex_words) = TokOk (map w_text ex_words).
+Proof. vm_compute. auto. Qed.
+
 Print Assumptions C20_ini_roundtrip.
+Print Assumptions C20_is_number_spec.
+Print Assumptions C20_aconf_tokenize_render.
 Print Assumptions C20_is_bool_spec.
